@@ -80,6 +80,10 @@ mut("c11-aod-stream-good-check-deleted", "c11_theta", True,
 mut("c11-v4-expected-size-in-bits", "c11_theta", True,
     [(PAI, "    const size_t expected_size_bytes = data_offset_bytes + whole_bytes_to_hold_bits(expected_bits);", "    const size_t expected_size_bytes = data_offset_bytes + (expected_bits >> 3);")],
     "compressed image: the expected size rounds the packed area down (tail bits unchecked)")
+mut("c11-tuple-scratch-leak-on-throw", "c11_theta", True,
+    [(TUI, "  const size_t keys_size_bytes = sizeof(uint64_t) * num_entries;\n  ensure_minimum_memory(size, ptr - base + keys_size_bytes);",
+           "  const size_t keys_size_bytes = sizeof(uint64_t) * num_entries;\n  uint64_t* scratch = new uint64_t[8];\n  ensure_minimum_memory(size, ptr - base + keys_size_bytes);\n  delete[] scratch;")],
+    "tuple bytes reader: a scratch buffer allocated before the size check is not released when the check throws")
 # ---- preserving
 mut("keep-explicit-zero-for-unused", "c09_theta", False,
     [(TI, "  *ptr++ = SKETCH_TYPE;\n  ptr += sizeof(uint16_t); // unused\n  const uint8_t flags_byte(\n    (1 << flags::IS_COMPACT) |\n    (1 << flags::IS_READ_ONLY) |\n    (this->is_empty() ? 1 << flags::IS_EMPTY : 0) |",
